@@ -223,12 +223,12 @@ class NonOverlappingFeaturesProfileConstructor:
                     gene_pos += 1
 
         # making everything beyond polyA tail as outside feature
-        if polya_position != -1:
+        if polya_position != -1 and self.known_exons:
             polya_index = interval_bin_search(self.known_exons, polya_position + self.delta)
             if polya_index != -1:
                 for i in range(polya_index + 1, len(self.known_exons)):
                     exon_profile[i] = -2
-        if polyt_position != -1:
+        if polyt_position != -1 and self.known_exons:
             polyt_index = interval_bin_search_rev(self.known_exons, polyt_position - self.delta)
             if polyt_index != -1:
                 for i in range(0, polyt_index):
